@@ -191,6 +191,19 @@ func (g *Gen) Target() []*GVsys {
 		v := &GVsys{Name: fmt.Sprintf("vsys%d", vi+2), Display: "netspoc managed", AddrX: map[string]string{}}
 		ngroups := g.Rng.Intn(4)
 		for i := 0; i < ngroups; i++ {
+			if i > 0 && g.Rng.Intn(3) == 0 {
+				// Near copy of an earlier group (one group split in two).
+				o := v.Groups[g.Rng.Intn(len(v.Groups))]
+				gr := append([]string{fmt.Sprintf("g%d", i)}, o[1:]...)
+				if len(gr) > 2 && g.Rng.Intn(2) == 0 {
+					k := 1 + g.Rng.Intn(len(gr)-1)
+					gr = append(gr[:k:k], gr[k+1:]...)
+				} else {
+					gr = append(gr, g.addr(v))
+				}
+				v.Groups = append(v.Groups, gr)
+				continue
+			}
 			v.Groups = append(v.Groups, append([]string{fmt.Sprintf("g%d", i)}, g.members(v, 1+g.Rng.Intn(6))...))
 		}
 		nsvc := g.Rng.Intn(4)
@@ -296,7 +309,7 @@ func (g *Gen) Device(t []*GVsys, nedits int) ([]*GVsys, []string) {
 				}
 			}
 		}
-		switch g.Rng.Intn(18) {
+		switch g.Rng.Intn(19) {
 		case 0: // rule missing on device
 			if len(v.Rules) > 0 {
 				i := g.Rng.Intn(len(v.Rules))
@@ -453,6 +466,20 @@ func (g *Gen) Device(t []*GVsys, nedits int) ([]*GVsys, []string) {
 					v.Groups[i] = append([]string{v.Groups[i][0]}, g.members(v, 1+g.Rng.Intn(5))...)
 					ops = append(ops, "group-suffix-clash")
 				}
+			}
+		case 18: // two target groups are one group on the device
+			if len(v.Groups) > 1 {
+				i := g.Rng.Intn(len(v.Groups))
+				j := g.Rng.Intn(len(v.Groups) - 1)
+				if j >= i {
+					j++
+				}
+				if g.Rng.Intn(2) == 0 {
+					v.Groups[i] = append([]string{v.Groups[i][0]}, v.Groups[j][1:]...)
+				}
+				renameGroup(v.Groups[j][0], v.Groups[i][0])
+				v.Groups = append(v.Groups[:j], v.Groups[j+1:]...)
+				ops = append(ops, "groups-merged")
 			}
 		case 17: // device holds rule X with other content and another rule named X-1
 			if len(v.Rules) > 1 {
